@@ -236,13 +236,18 @@ def oracle(case, impl):
         k = k.lstrip('_')
         if k and k[0].isupper(): k = k[0].lower() + k[1:]
         return k.replace('-', '_').replace(' ', '_')
+    def field(k):       # lineage.facet_field_name: what cannot be a dataclass field name is replaced by '_'
+        k = ''.join(c if c.isascii() and (c.isalnum() or c == '_') else '_' for c in k) or '_'
+        return '_' + k if k[0].isdigit() else k
     if isinstance(facet, (list, type(None))):
         ok_keys = {'_producer', 'schemaURL', 'type', 'model_name'}
         for k, v in (facet or []):
             if isinstance(v, dict) and 'buckets' in v: ok_keys |= {norm(k) + '__' + x for x in ('buckets', 'counts', 'count', 'sum')}
             else: ok_keys.add(norm(k))
         for keys in case.get('_event_keys') or []:
-            extra = [k for k in keys if k not in ok_keys]
+            import re as _re, keyword as _kw
+            okf = {field(k) for k in ok_keys} | {field(k) + '_' for k in ok_keys if _kw.iskeyword(field(k))}
+            extra = [k for k in keys if k not in ok_keys and k not in okf and _re.sub(r'_\d+$', '', k) not in okf]
             if extra: out.append(('backend-event-leak', f'the RUNNING event handed to the lineage backend carries {extra}, not part of this exporter\'s facet {[k for k, _ in (facet or [])]} (allow-list {allow!r})'))
     return out
 
